@@ -708,3 +708,58 @@ def _():
             kw["rivdst"] = W.arr("elev", np.float64) * 10.0
         return W.flw.river_depth(**kw)
     return (lambda rng, w: {"slp": rng.random() < 0.5, "manning": rng.choice([0.03, 0.05]), "min_rivdph": rng.choice([1, 0.5])}, call)
+
+
+# ---- API surface tie -------------------------------------------------------------------------------
+# every public name of the library -> the catalogue op(s) that exercise it, or a waiver with a reason.
+# `api_surface_gaps()` recomputes the public surface from the working tree; a public callable that is
+# neither covered nor waived breaks the correspondence of C07 / C13 / C16 (reported as a model failure).
+COVERED_BY = {
+    # methods / properties of Flwdir and FlwdirRaster
+    "accuflux": "accuflux", "add_pits": "add_pits", "area": "area", "basin_bounds": "basin_bounds",
+    "basin_outlets": "basin_outlets", "basins": "basins", "bounds": "bounds", "classify_estuaries": "classify_estuaries",
+    "dem_adjust": "dem_adjust", "dem_dig_d4": "dem_dig_d4", "distnc": "distnc", "downstream": "downstream",
+    "dump": "dump_load", "load": "dump_load", "extent": "extent", "fillnodata": "fillnodata",
+    "floodplains": "hand_floodplains", "hand": "hand_floodplains", "geofeatures": "vectorize", "idxs_ds": "to_array",
+    "idxs_pit": "idxs_pit", "idxs_seq": "idxs_seq", "idxs_us_main": "idxs_us_main", "index": "index_xy", "xy": "index_xy",
+    "inflow_idxs": "inflow_outflow_idxs", "outflow_idxs": "inflow_outflow_idxs", "interbasin_mask": "interbasin_mask",
+    "isvalid": "isvalid", "main_upstream": "main_upstream", "mask": "mask", "moving_average": "moving_average",
+    "moving_median": "moving_median", "n_upstream": "n_upstream", "ncells": "ncells", "nnodes": "nnodes",
+    "order_cells": "order_cells", "path": "path", "rank": "rank", "repair_loops": "repair_loops",
+    "river_depth": "river_depth", "set_transform": "set_transform", "smooth_rivlen": "smooth_rivlen", "snap": "snap",
+    "stream_distance": "stream_distance", "stream_order": "stream_order", "streams": "streams",
+    "subbasins_area": "subbasins_area", "subbasins_pfafstetter": "subbasins_pfafstetter",
+    "subbasins_streamorder": "subbasins_streamorder", "subgrid_rivavg": "subgrid_riv", "subgrid_rivlen": "subgrid_riv",
+    "subgrid_rivmed": "subgrid_riv", "subgrid_rivslp": "subgrid_riv", "to_array": "to_array", "ucat_area": "ucat",
+    "ucat_outlets": "ucat", "ucat_volume": "ucat", "upscale": "upscale", "upscale_error": "upscale",
+    "upstream_area": "upstream_area", "upstream_sum": "upstream_sum", "vectorize": "vectorize",
+    # module level
+    "from_array": "from_array", "from_dem": "from_dem", "fill_depressions": "from_dem", "slope": "slope",
+    "spread2d": "spread2d", "get_edge": "gis_utils", "array_bounds": "gis_utils", "affine_to_coords": "gis_utils",
+    "idxs_to_coords": "gis_utils", "region_bounds": "regions", "region_sum": "regions", "region_area": "regions",
+    "d8_to_ldd": "conversion", "ldd_to_d8": "conversion",
+}
+WAIVED = {
+    "read_nextxy": "file I/O (np.fromfile); not modelled, see DESIGN section 7",
+    "from_dataframe": "needs pandas (not a dependency of the checks); get_loc_idx is covered by the C03 extension when present",
+    "transform_from_origin": "pure Affine constructor, covered by C17 (c17_transform)",
+    "transform_from_bounds": "pure Affine constructor, covered by C17 (c17_transform)",
+    "xy": "covered", "rowcol": "covered by C17 (c17_rowcol) and index_xy",
+    "reggrid_area": "covered by C17 (c17_area) through area_grid", "reggrid_dx": "thin wrapper of degree_metres_x, C17",
+    "reggrid_dy": "thin wrapper of degree_metres_y, C17", "region_slices": "scipy.ndimage.find_objects wrapper, used by region_bounds",
+    "Flwdir": "class", "FlwdirRaster": "class",
+}
+
+
+def api_surface_gaps():
+    import inspect
+    import pyflwdir
+    from pyflwdir.pyflwdir import FlwdirRaster
+    import pyflwdir.dem, pyflwdir.gis_utils, pyflwdir.regions, pyflwdir.core_conversion, pyflwdir.core_nextxy  # noqa: E401,F401
+    names = {n for n, _ in inspect.getmembers(FlwdirRaster) if not n.startswith("_")}
+    for m in (pyflwdir.dem, pyflwdir.gis_utils, pyflwdir.regions, pyflwdir.core_conversion, pyflwdir.core_nextxy,
+              pyflwdir.flwdir, pyflwdir.pyflwdir):
+        names |= set(getattr(m, "__all__", []) or [])
+    gaps = sorted(n for n in names if n not in COVERED_BY and n not in WAIVED)
+    dangling = sorted(n for n, o in COVERED_BY.items() if o not in OPS)
+    return gaps, dangling
